@@ -38,8 +38,9 @@ class WrongModel(Exception):
 
 
 # ----------------------------------------------------------------------------- lexer
-def lex(s: str):
-    """-> list of (kind, text).  kinds: IDENT NUMBER STRING PIPE { } = SPACE , EOF.  Raises RefReject."""
+def lex(s: str, partial: bool = False):
+    """-> list of (kind, text).  kinds: IDENT NUMBER STRING PIPE { } = SPACE , EOF.  Raises RefReject
+    (with partial=True: returns the tokens before the first unknown token instead, without EOF)."""
     out = []
     n = len(s)
     pos = 0
@@ -109,6 +110,8 @@ def lex(s: str):
                 j += 1
             tok = ("SPACE", s[pos:j])
         if tok is None:
+            if partial:
+                return out
             raise RefReject(f"unknown token at {pos}")
         out.append(tok)
         pos += len(tok[1])
@@ -117,19 +120,11 @@ def lex(s: str):
 
 
 def lex_prefix(s: str):
-    """Tokens up to the first lexing error (used only to describe / hash fuzz inputs)."""
-    try:
-        return lex(s), True
-    except RefReject:
-        lo, hi = 0, len(s)
-        while lo < hi:  # longest lexable prefix
-            mid = (lo + hi + 1) // 2
-            try:
-                lex(s[:mid])
-                lo = mid
-            except RefReject:
-                hi = mid - 1
-        return (lex(s[:lo]) if lo else [("EOF", "")]), False
+    """(tokens up to the first lexing error, whole input lexed?) - used to describe / hash fuzz inputs and to look
+    for string literals the real parser may have decoded before it stopped."""
+    toks = lex(s, partial=True)
+    done = bool(toks) and toks[-1][0] == "EOF"
+    return (toks if done else toks + [("EOF", "")]), done
 
 
 # ----------------------------------------------------------------------------- string decoding
